@@ -67,7 +67,12 @@ class Unit:
         ex.solver_s = 0.0
         ex.checks = 0
         if ex.truncated:
-            self.error("path bound reached (%d paths): exploration truncated" % ex.max_paths)
+            msg = "path/time bound reached (%d paths explored): exploration truncated" % len(paths)
+            if getattr(self, "extended", False):
+                self.note("extended unit undecided: " + msg)
+                self.r["undecided_extended"] = self.r.get("undecided_extended", 0) + 1
+            else:
+                self.error(msg)
 
     def error(self, msg):
         self.r["errors"].append(str(msg)[:2000])
@@ -378,6 +383,7 @@ class Check:
                                  ("cvc5_checked", "cvc5_unsat", "cvc5_sat", "cvc5_unknown", "cvc5_no_answer")},
             "slowest_units_s": [[u["unit"], round(u.get("wall_s", 0), 1)] for u in
                                 sorted(self.units, key=lambda u: -u.get("wall_s", 0))[:8]],
+            "extended_units_undecided_within_budget": sum(u.get("undecided_extended", 0) for u in self.units),
             "obligations_skipped_after_violation": sum(u.get("skipped_after_violation", 0) for u in self.units),
             "samples": samples,
             "trusted_base": self.trusted,
